@@ -414,6 +414,11 @@ func runC02(c *core.Ctx) {
 			extraQ = append(extraQ, float64(r.Intn(nn))/float64(nn-1))
 		}
 	}
+	type argSnap struct {
+		p   *part
+		obs *mon.Obs
+	}
+	var merged []argSnap // arguments of earlier merges: must never change afterwards either
 	var eval func(t *mergeNode) *part
 	failed := false
 	eval = func(t *mergeNode) *part {
@@ -468,6 +473,7 @@ func runC02(c *core.Ctx) {
 			c.Failf("merge.argument_changed", "the argument of a merge changed: %s", d)
 			failed = true
 		}
+		merged = append(merged, argSnap{b, before})
 		if bEmpty {
 			if d := recvBefore.Diff(mon.Observe(a.s, extraQ)); d != "" {
 				c.Failf("merge.empty_not_noop", "merging an empty sketch changed the receiver: %s", d)
@@ -479,6 +485,18 @@ func runC02(c *core.Ctx) {
 	root := eval(tree)
 	if c.Failed() {
 		return
+	}
+	// the receivers went on absorbing other parts: no earlier argument may have been affected (aliasing)
+	if r.Bool() {
+		v := vs.vals[r.Intn(len(vs.vals))] // a value of the input: stays within the stores' span budget
+		c.Guard("Add", func() { root.s.P.Add(v); single.P.Add(v) })
+	}
+	for _, a := range merged {
+		c.Count("oracle.argument_unchanged_later", 1)
+		if d := a.obs.Diff(mon.Observe(a.p.s, extraQ)); d != "" {
+			c.Failf("merge.argument_changed_later", "a sketch that had been the argument of a merge changed when its receiver was used further: %s", d)
+			return
+		}
 	}
 	c.Count("oracle.merge_equalities", 1)
 	want := mon.Observe(single, extraQ)
